@@ -45,6 +45,12 @@ type Case struct {
 	Entry string   `json:"entry,omitempty"`
 	Val   string   `json:"val,omitempty"`
 	Setup string   `json:"setup,omitempty"`
+	// fam "expo": shape and leaf kinds of a nested value; fam "defp": target and partial descriptor
+	Shape  string `json:"shape,omitempty"`
+	X      string `json:"x,omitempty"`
+	Y      string `json:"y,omitempty"`
+	Target string `json:"target,omitempty"`
+	Desc   *Desc  `json:"desc,omitempty"`
 	// Patient: reproduction run with a long watchdog (tells slow from wedged on a loaded machine)
 	Patient bool `json:"patient,omitempty"`
 }
@@ -375,6 +381,12 @@ func Render(c *Case) string {
 		return "[hist] var a = [1,2,3,4]; " + strings.Join(steps, "; ")
 	case "thr":
 		return fmt.Sprintf("[throw via %s] throw %s", c.Entry, valExpr(c.Val))
+	case "expo":
+		x, _ := nestExpr(c.Shape, c.X, c.Y)
+		return fmt.Sprintf("[expo] %s on %s", c.Acc, x)
+	case "defp":
+		s, d, _, _ := defScript(c)
+		return fmt.Sprintf("[defp] %s; %s; <probes>", s, d)
 	case "copy":
 		return fmt.Sprintf("[copy] %s ; vm.Copy() ; copy.Run(\"1+1\")", copySetups[c.Setup])
 	case "text":
@@ -592,6 +604,10 @@ func exec1(c *Case, onVM func(*otto.Otto)) Obs {
 		vm.SetStackDepthLimit(c.L)
 		obs = applyAcc(vm, c.Acc, v)
 		vm.SetStackDepthLimit(0)
+	case "expo":
+		obs = execExpo(vm, c)
+	case "defp":
+		obs = execDef(vm, c)
 	case "hist":
 		obs = execHist(vm, c)
 	case "thr":
